@@ -256,7 +256,7 @@ pub fn run(ctx: &mut Ctx) {
     // or booleans, at every position, for every threshold: `missing` flattens only a FIRST operand that is an
     // array (its documented quirk); everything else that is not a string, an integer or null is not a key
     {
-        let entries: Vec<Value> = ["\"a\"", "\"zz\"", "1", "null", "[]", "[\"a\"]", "[\"zz\",\"yy\"]", "[\"zz\",\"yy\",\"xx\"]", "[[\"zz\",\"yy\"]]", "[5,6,7]", "{}", "true", "1.5", "[null]", "[[]]"].iter().map(|t| al::parse(t)).collect();
+        let entries: Vec<Value> = ["\"a\"", "\"zz\"", "1", "null", "[]", "[\"a\"]", "[\"zz\",\"yy\"]", "[\"zz\",\"yy\",\"xx\"]", "[[\"zz\",\"yy\"]]", "[5,6,7]", "{}", "true", "1.5", "[null]", "[[]]", "[{\"var\":\"k\"},\"zz\"]", "{\"var\":\"k\"}", "[[\"a\",\"zz\"]]"].iter().map(|t| al::parse(t)).collect();
         let mut lists: Vec<Vec<Value>> = vec![];
         for a in &entries {
             lists.push(vec![a.clone()]);
